@@ -314,13 +314,15 @@ pub fn core(rest: &str) -> String {
     let n = c.symtab.get_num_definitions();
     let bc = c.bytecode();
     let code = nums(&bc.instructions.code);
+    // C13: the compiler's line table, one entry per code byte (compared with `Core.lineTable`)
+    let lines = nums(&bc.instructions.lines);
     let consts: Vec<String> = bc.constants.iter().map(|o| dump_const(o)).collect();
     let mut vm = VM::new(bc);
     let r = vm.run();
     let gs: Vec<String> = (0..n).map(|i| wire::enc(&vm.globals[i])).collect();
     match r {
-        Ok(()) => format!("code=[{}] consts=[{}] ok g=[{}] last={} sp={}", code, consts.join("|"), gs.join(","), wire::enc(&vm.last_popped()), vm.verif_sp()),
-        Err(e) => format!("code=[{}] consts=[{}] rterr {}", code, consts.join("|"), e.line),
+        Ok(()) => format!("code=[{}] lines=[{}] consts=[{}] ok g=[{}] last={} sp={}", code, lines, consts.join("|"), gs.join(","), wire::enc(&vm.last_popped()), vm.verif_sp()),
+        Err(e) => format!("code=[{}] lines=[{}] consts=[{}] rterr {}", code, lines, consts.join("|"), e.line),
     }
 }
 
